@@ -2,6 +2,7 @@
 # usage: tools/seedcheck.sh <seed-id> <prop> [<prop>...]   -- apply seeded/<seed-id>/patch.diff to /repo, run the checks, undo
 seed=$1; shift
 cd /verif
+if [ -n "$(git -C /repo status --porcelain --untracked-files=no)" ]; then echo "refusing: /repo has uncommitted changes"; exit 2; fi
 git -C /repo apply /verif/seeded/$seed/patch.diff || { echo "patch does not apply"; exit 2; }
 for p in "$@"; do
   GVC_EVIDENCE_DIR=/tmp/seed_ev ./check $p quick > /tmp/seedcheck_${seed}_$p.log 2>&1
